@@ -104,6 +104,19 @@ func classifyExternal(f *ssa.Function) Effect {
 	if pk := pkgOfFunc(f); pk != nil && pk.Pkg != nil {
 		pkg = pk.Pkg.Path()
 	}
+	// value methods of the file-mode / file-info vocabulary and the error predicates touch nothing
+	if f.Signature.Recv() != nil {
+		switch typeName(f.Signature.Recv().Type()) {
+		case "FileMode", "PathError", "LinkError", "SyscallError":
+			if pkg == "io/fs" || pkg == "os" {
+				return EffPure
+			}
+		}
+	}
+	switch name {
+	case "os.IsNotExist", "os.IsExist", "os.IsPermission", "os.IsTimeout", "os.IsPathSeparator", "io/fs.FormatFileInfo", "io/fs.FormatDirEntry", "io/fs.FileInfoToDirEntry":
+		return EffPure
+	}
 	switch {
 	case pkg == "os/exec" || strings.HasPrefix(pkg, "net"):
 		return EffExec
